@@ -175,6 +175,16 @@ CLAIMED["C13"] = dict(
            "the emitted document and equality of the re-parsed value for every shape x option vector."),
     note=_NOTE, technique="static analysis: save/restore pairing by path search over the MIR control-flow graph (branch-correlated)")
 
+CLAIMED["C19"] = dict(
+    level=("Static decision of the totality clauses of the expression evaluator in every configuration that compiles it: each recursive "
+           "cycle of the parser's call graph passes through expr and both re-entries into expr are reached only on the success edge "
+           "of enter(); exit() follows the nested expression on every path including its error path; enter() rejects at depth >= "
+           "limit before incrementing; all six digit-cap comparisons reject on exceeding the cap; every loop cycle advances a cursor; "
+           "the evaluator is reached only on the angle_conversions edge, has one caller, and rejects trailing characters; without "
+           "the option the plain str::parse path is taken. Not decided: IEEE-754 exactness, precedence, unit arithmetic."),
+    note=_NOTE + " Needs the `robotics` feature: decided in the `full` (quick) and `robotics` (thorough) configurations.",
+    technique="static analysis: recursion-cycle census with guard dominance, enter/exit pairing, limit-compare and loop-progress (SCC) rules on MIR")
+
 NOT_APPLICABLE = {("C%02d" % i): _NB for i in range(1, 21) if ("C%02d" % i) not in CLAIMED}
 
 CLAIMED["C10"] = dict(
@@ -333,5 +343,15 @@ CLAIMED["C13"] = dict(
            "options.consistent() before constructing the serializer. Declared not applicable and NOT decided: well-formedness of "
            "the emitted document and equality of the re-parsed value for every shape x option vector."),
     note=_NOTE, technique="static analysis: save/restore pairing by path search over the MIR control-flow graph (branch-correlated)")
+
+CLAIMED["C19"] = dict(
+    level=("Static decision of the totality clauses of the expression evaluator in every configuration that compiles it: each recursive "
+           "cycle of the parser's call graph passes through expr and both re-entries into expr are reached only on the success edge "
+           "of enter(); exit() follows the nested expression on every path including its error path; enter() rejects at depth >= "
+           "limit before incrementing; all six digit-cap comparisons reject on exceeding the cap; every loop cycle advances a cursor; "
+           "the evaluator is reached only on the angle_conversions edge, has one caller, and rejects trailing characters; without "
+           "the option the plain str::parse path is taken. Not decided: IEEE-754 exactness, precedence, unit arithmetic."),
+    note=_NOTE + " Needs the `robotics` feature: decided in the `full` (quick) and `robotics` (thorough) configurations.",
+    technique="static analysis: recursion-cycle census with guard dominance, enter/exit pairing, limit-compare and loop-progress (SCC) rules on MIR")
 
 NOT_APPLICABLE = {("C%02d" % i): _NB for i in range(1, 21) if ("C%02d" % i) not in CLAIMED}
